@@ -44,14 +44,22 @@ fn main() {
     let rcfg = RunCfg { probe_entities: false, probe_stores: false, ledger };
     let mut out = String::new();
     out.push_str("domain world\n");
+    // C20: shift the heap layout and iterate cases in reverse order on request
+    if let Ok(n) = std::env::var("VH_PREALLOC") {
+        let n: usize = n.parse().unwrap_or(0);
+        let junk: Vec<Vec<u8>> = (0..(n % 97 + 1)).map(|i| vec![i as u8; (n * 31 + i * 4099) % 1_000_003 + 1]).collect();
+        std::mem::forget(junk);
+    }
+    let reverse = std::env::var("VH_REVERSE").map(|v| v == "1").unwrap_or(false);
     match args.get(1).map(|s| s.as_str()) {
         Some("gen") => {
             let seed: u64 = args[2].parse().unwrap();
             let cases: usize = args[3].parse().unwrap();
             let maxlen: usize = args[4].parse().unwrap();
             let mut master = Rng::new(seed);
-            for c in 0..cases {
-                let sub = master.next();
+            let mut subs: Vec<(usize, u64)> = (0..cases).map(|c| (c, master.next())).collect();
+            if reverse { subs.reverse(); }
+            for (c, sub) in subs {
                 let mut rng = Rng::new(sub);
                 let len = rng.range(3, maxlen as u64) as usize;
                 let ops = gen_script(&mut rng, len);
@@ -66,8 +74,9 @@ fn main() {
             let maxlen: usize = args[4].parse().unwrap();
             let focus = args.get(5).map(|s| s.as_str()).unwrap_or("any");
             let mut master = Rng::new(seed ^ 0x5eed);
-            for c in 0..cases {
-                let sub = master.next();
+            let mut subs: Vec<(usize, u64)> = (0..cases).map(|c| (c, master.next())).collect();
+            if reverse { subs.reverse(); }
+            for (c, sub) in subs {
                 let mut rng = Rng::new(sub);
                 let len = rng.range(3, maxlen as u64) as usize;
                 let p = random_profile(&mut rng, focus);
